@@ -74,7 +74,11 @@ def strategy(draw):
             "squash_anti": draw(st.booleans()),
             # a common factor on every bin weight: the weighted mean does not depend on it (seeded change C16h treated
             # weights summing to less than 1e-8 as "no weights")
-            "wscale": draw(st.sampled_from([1.0, 1.0, 1.0, 1e-10, 1e-12, 1e6]))}
+            "wscale": draw(st.sampled_from([1.0, 1.0, 1.0, 1e-10, 1e-12, 1e6])),
+            # some bins inside a gene carry weight exactly 0 (never the gene's first bin, and only without segments and
+            # null bins, so that every reported group keeps a positive weight and its weighted means stay defined) -
+            # seeded change C16j fell back to the plain depth mean unless *all* weights were non-zero
+            "zero_w": draw(st.booleans())}
 
 
 # ------------------------------------------------------------------ building
@@ -102,9 +106,11 @@ def build(case):
                     cgroups.append(("Antitarget", ids))
             else:
                 ids = []
-                for bit in b["pat"]:
+                for k, bit in enumerate(b["pat"]):
                     nm = b["name"] if bit else b["fill"]
                     rows.append(_row(c["name"], pos, nm, b["level"], rng, case, rid))
+                    if case.get("zero_w") and not case["use_segments"] and not case["null_frac"] and k >= 1 and bit and rid % 3 == 1:
+                        rows[-1]["weight"] = 0.0
                     pos = rows[-1]["end"] + int(rng.integers(0, 40)) * int(rng.integers(0, 3) > 0)
                     ids.append(rid)
                     rid += 1
